@@ -82,7 +82,8 @@ RsFillAll(s) ==
          ELSE RsFillAll([s EXCEPT !.sub = d.s, !.rbuf = @ \o x.v])
 
 \* write(d): returns the count the stream reports
-MemPut(data, pos, d) ==     \* BytesIO semantics: zero-fill a gap, overwrite, extend
+MemPut(data, pos, d) ==     \* BytesIO semantics: zero-fill a gap, overwrite, extend; writing nothing changes nothing
+    IF d = <<>> THEN data ELSE
     LET padded == IF pos > Len(data) THEN data \o Rep(0, pos - Len(data)) ELSE data
     IN SubSeq(padded, 1, pos) \o d \o SubSeq(padded, pos + Len(d) + 1, Len(padded))
 RawWrite(s0, d) ==
